@@ -580,6 +580,14 @@ def _outside_table(m, rep, R, env, body, table_loop, assigns, left, right, lengt
 def _binary_roles(m, s):
     """-> (L, R, E, O, rulevar, cell_range) for a binary site or raises."""
     L, R = unaddr(s.f['left']), unaddr(s.f['right'])
+    if L[0] == 'cond' or R[0] == 'cond':
+        # which item is the head decides the dependency score, not the order of the children: the tree printers, the rule
+        # labels and the spans all read left / right as the item that starts the span and the one that ends it
+        from .core import StructuralViolation
+        raise StructuralViolation('R-model', '%s:%s parse_sentence' % (H, s.line), 'binary:left-right',
+                                  'the left / right back-pointers of a combined item are chosen by a condition (%s / %s): when it takes the other branch the '
+                                  'derivation is stored with its children swapped -- the tree read back from the chart has the words of the two halves in the '
+                                  'wrong order and a category that the rule does not give for that order' % (show(L)[:70], show(R)[:70]))
     if L[0] != 'var' or R[0] != 'var':
         raise AnalysisError('%s:%s binary push: back-pointers are not plain items: %s / %s'
                             % (H, s.line, show(L), show(R)))
